@@ -96,7 +96,22 @@ fn session_main(args: &[String], dump: bool) -> i32 {
     let mut totals: BTreeMap<&'static str, u64> = BTreeMap::new();
     let mut classes = std::collections::BTreeSet::new();
     let mut out = Trace { profile: prof.name().into(), runs: Vec::new() };
+    // a run that does not finish (a conversion that loops forever, a deadlock between locks a
+    // change added) must not hang the check: give up on the session after two minutes in one run
+    static RUN_STARTED: std::sync::atomic::AtomicU64 = std::sync::atomic::AtomicU64::new(u64::MAX);
+    static RUN_IDX: std::sync::atomic::AtomicU64 = std::sync::atomic::AtomicU64::new(0);
+    let t0 = std::time::Instant::now();
+    std::thread::spawn(move || loop {
+        std::thread::sleep(std::time::Duration::from_secs(1));
+        let started = RUN_STARTED.load(std::sync::atomic::Ordering::Relaxed);
+        if started != u64::MAX && t0.elapsed().as_secs().saturating_sub(started) > 120 {
+            eprintln!("RUN-TIMEOUT idx={} did not finish within 120 s", RUN_IDX.load(std::sync::atomic::Ordering::Relaxed));
+            std::process::exit(3);
+        }
+    });
     for idx in from..to {
+        RUN_IDX.store(idx, std::sync::atomic::Ordering::Relaxed);
+        RUN_STARTED.store(t0.elapsed().as_secs(), std::sync::atomic::Ordering::Relaxed);
         let mut tr = ops::generate(run_seed(base, prof, idx), prof, false);
         if !dump {
             // so that the driver knows which run was executing if the process dies
